@@ -7,6 +7,7 @@ import Driver.Arms
 import Driver.AllocD
 import Driver.Threads
 import Driver.PanicD
+import Driver.SigD
 namespace Driver
 
 def dispatch (line : String) : String :=
@@ -33,6 +34,12 @@ def dispatch (line : String) : String :=
       | "allocinstall" => handleAllocInstall args obs
       | "thr" => handleThr args obs
       | "pan" => handlePan rest
+      | "sigty" => handleSigTy args obs
+      | "sigpair" => handleSigPair args obs
+      | "sigmix" => handleSigMix args obs
+      | "signull" => handleSigNull args obs
+      | "sigasync" => handleSigAsync args obs
+      | "boolgate" => handleBoolGate args obs
       | "armrun" => handleArmRun args obs
       | "armcompile" => handleArmCompile args obs
       | _ => bad ("unknown-tag:" ++ tag)
